@@ -1,4 +1,5 @@
 """C07 Barrier semantics (S4U leg, real scheduler)."""
+from verif import proc
 from verif.gen import sync as G
 from verif.oracles import sync as O
 
@@ -15,11 +16,15 @@ META = {
                   "complete at that point of the history and not before the date of its last arrival; at the end every member of a complete group "
                   "must have returned, and the only blocked actors are the members of a trailing incomplete group.",
     "level_note": "S4U API only: the model-checker leg of the design is not built. The documented return value (exactly one 'true' per group) and "
-                  "the order of the returns inside a group are recorded as counters only, the statement does not cover them. Killing an actor that "
-                  "waits on a barrier is not generated: the statement does not say whether it still counts. Scripted actors left in an "
-                  "incomplete trailing group are kept blocked for 64 time units (nobody may return) and then completed by helper actors, because "
-                  "on this tree the kernel crashes when it kills an actor blocked on a barrier (also at the end of a deadlocked run): that "
-                  "crash is a separate known finding, reproduced by two directed programs without helpers.",
+                  "the order of the returns inside a group are recorded as counters only, the statement does not cover them. The statement "
+                  "does not say whether an actor killed while it waits still counts as arrived: programs with Actor::kill of a blocked waiter "
+                  "(7 directed + 24 generated, own processes) are accepted under either reading (the dead arrival leaves its incomplete group / "
+                  "stays counted), applied to the whole history; what is demanded is that the simulator survives and that every return "
+                  "has a complete group under that reading. Scripted actors left in an incomplete trailing group are kept blocked for 64 time "
+                  "units (nobody may return) and then completed by helper actors arriving one at a time, except in two directed programs that "
+                  "end in the kernel's deadlock report. On this tree killing a barrier waiter crashes the simulator (open known finding): "
+                  "until it is fixed the generated kill programs only reproduce that crash, and on the asan flavour they are not run "
+                  "(one probe, then masked).",
     "rule": "case = one scenario (barrier sizes + per-actor scripts); non-trivial = distinct scenarios, fully checked, in which >=1 wait had to block "
             "and >=1 group of size >=2 was released",
     "ready": False,
@@ -32,30 +37,64 @@ DIRECTED = [
     {"mode": "bar", "sizes": [6], "scripts": [["B0"], ["B0"], ["S1", "B0"], ["S1", "B0"], ["S2", "B0"], ["S2", "B0"]]},
     {"mode": "bar", "sizes": [2, 3], "scripts": [["B0", "B1"], ["B1", "B0"], ["B1", "B0", "B0"], ["S1", "B0"]]},
     {"mode": "bar", "sizes": [4], "scripts": [["B0"], ["B0"], ["B0"]]},                          # incomplete group: nobody may return before the helpers come
+    {"mode": "bar", "sizes": [3], "scripts": [["B0", "B0", "B0"], ["B0", "B0", "B0"], ["B0", "B0", "B0"], ["B0", "B0", "B0"]]},  # 4 actors, groups of 3, same date
 ]
-# programs that end with an incomplete group and no helper: the actors stay blocked, the kernel reports the deadlock and kills them
-NOSWEEP = [
+# Programs in which an actor dies while it is blocked in Barrier::wait, each run in its own process. The statement does not say
+# whether such an arrival still counts; the simulator must survive, and the rest of the history must follow one of the two readings.
+KILLS = [
+    # ends with an incomplete group and no helper: the kernel reports the deadlock and kills the blocked actors itself
     {"mode": "bar", "sizes": [2], "nosweep": 1, "scripts": [["B0"]]},
     {"mode": "bar", "sizes": [4], "nosweep": 1, "scripts": [["B0", "B0"], ["B0"], ["B0"], ["B0"], ["S1", "B0"]]},
+    # Actor::kill of a blocked waiter
+    {"mode": "bar", "sizes": [2], "scripts": [["B0"], ["S1", "X0"]]},
+    {"mode": "bar", "sizes": [2], "scripts": [["B0"], ["S1", "X0", "S1", "B0"], ["S3", "B0"]]},      # the dead arrival and a later pair
+    {"mode": "bar", "sizes": [3], "scripts": [["B0"], ["B0"], ["S1", "X0", "S1", "B0"], ["S3", "B0"]]},
+    {"mode": "bar", "sizes": [3], "scripts": [["B0", "B0"], ["B0", "B0"], ["S1", "X1", "B0", "B0"], ["S2", "B0", "B0"]]},
+    {"mode": "bar", "sizes": [2], "scripts": [["B0"], ["X0", "B0"], ["B0", "B0"]]},                   # kill in the scheduling round of the arrival
 ]
+
+
+KNOWN_CRASH = "C07:crash:barrier-waiter-killed"
+
+
+def crash_key(sc, res, out):
+    """the known crash: the process dies while an actor blocked on a barrier is being killed (Actor::kill in progress, or the kernel's
+    clean-up after its deadlock report); any other death gets the generic key"""
+    ls = [l.split() for l in out.splitlines()]
+    if any(l and l[0] == "END" for l in ls):
+        return "C07:crash"
+    open_kill = False
+    for l in ls:
+        if len(l) >= 3 and l[2] == "X":
+            open_kill = l[0] == "Q"
+    reps = " ".join(str(r) for r in proc.sanitizer_reports(res.err))
+    segv = res.rc in (139, -11) or "SEGV" in reps or ("BarrierImpl.cpp" in reps and "null pointer" in reps)
+    if segv and (open_kill or "Deadlock detected" in res.err):
+        return KNOWN_CRASH
+    return "C07:crash"
 
 
 def judge(ctx, fl, sc, res, out):
     w = {"flavour": fl, "scenario": sc}
     c = G.crashed(res)
     if c:
-        if sc.get("nosweep") and "Deadlock detected" in res.err and not any(l.startswith("END") for l in out.splitlines()):
-            ctx.violation("C07:crash:deadlock-cleanup-of-barrier-waiter", "the program ends with actors blocked on a barrier (incomplete group); the kernel "
-                          "reported the deadlock and died while killing them: %s; history tail %r" % (c, out.splitlines()[-8:]), w)
-        else:
-            ctx.violation("C07:crash", "barrier harness died: %s; history tail %r" % (c, out.splitlines()[-8:]), w)
-        return
+        key = crash_key(sc, res, out)
+        ctx.violation(key, "barrier harness died%s: %s; history tail %r"
+                      % (" while an actor blocked in Barrier::wait was being killed" if key != "C07:crash" else "", c, out.splitlines()[-8:]), w)
+        return key
     f = O.check_bar(ctx, sc, out, w)
+    if f == "skip":
+        ctx.count("scenarios_not_judged(killed actor still issuing requests)")
+        return None
     if not f:
-        return
-    for k in ("groups", "waits", "blocked_waits", "rearmed", "groups_one_true", "groups_other_true", "release_in_arrival_order", "release_other_order"):
+        return None
+    for k in ("groups", "waits", "blocked_waits", "rearmed", "groups_one_true", "groups_other_true", "release_in_arrival_order",
+              "release_other_order", "kills", "kills_of_ungranted_waiters"):
         if f[k]:
             ctx.count("events.%s" % k, f[k])
+    for k in ("killed_waiter_left_its_group", "killed_waiter_still_counted", "kill_semantics_not_distinguished"):
+        if f.get(k):
+            ctx.count("scenarios.%s" % k)
     if f["forever"]:
         ctx.count("scenarios_ending_with_an_incomplete_group")
     if f["blocked_waits"] and f["groups"] and any(s >= 2 for s in sc["sizes"]):
@@ -64,15 +103,24 @@ def judge(ctx, fl, sc, res, out):
 
 def run(ctx):
     n = ctx.size(600, 20000)
+    nk = ctx.size(24, 600)
     scs = DIRECTED + [G.gen_bar(ctx.sub_rng(i)) for i in range(n)]
+    kills = [G.gen_bar(ctx.sub_rng(1000000 + i), kills=True) for i in range(nk)]
     ctx.sample(DIRECTED[1])
     ctx.sample(scs[len(DIRECTED)])
+    ctx.sample(KILLS[4])
     for fl in ("hooks", "asan"):
         G.exe(fl)
-    j = lambda fl, sc, res, out: judge(ctx, fl, sc, res, out)
-    G.run_all(ctx, "hooks", scs, 20, j)
-    G.run_all(ctx, "hooks", NOSWEEP, 1, j)
-    G.run_all(ctx, "asan", scs[: len(DIRECTED) + max(24, n // 10)], 40, j)
+    na = len(DIRECTED) + max(53, n // 10)
+    ak = KILLS + kills[: max(8, nk // 10)]
+    G.run_many(ctx, [
+        ("asan", scs[:na], 60),
+        # one sanitized process for all the kill scenarios, after a probe: while the known crash is open only its minimal witness is run
+        ("asan", ak, len(ak), ([KILLS[2]], KNOWN_CRASH)),
+        ("hooks", scs, 20),
+        ("hooks", KILLS, 1),
+        ("hooks", kills, 4),
+    ], lambda fl, sc, res, out: judge(ctx, fl, sc, res, out))
 
 
 def replay(ctx, w):
